@@ -629,6 +629,32 @@ _FRESH_ARRAYS = ('np.zeros', 'np.ones', 'np.empty', 'np.full', 'np.array', 'np.e
                  'numpy.empty', 'numpy.full', 'numpy.array', 'np.zeros_like', 'np.ones_like', 'np.empty_like')
 
 
+def _sort_as_sorted(node):
+    """`X.sort(key=K)` on a local list is `X = sorted(X, key=K)` for everything that reads X afterwards (the
+    dataflow rules follow names, not in-place changes)"""
+    params = {a.arg for a in node.args.posonlyargs + node.args.args + node.args.kwonlyargs}
+
+    def rec(x):
+        for fld, val in ast.iter_fields(x):
+            if isinstance(val, list):
+                for i_, y in enumerate(val):
+                    if isinstance(y, ast.Expr) and isinstance(y.value, ast.Call) and isinstance(y.value.func, ast.Attribute) and \
+                       y.value.func.attr == 'sort' and isinstance(y.value.func.value, ast.Name) and not y.value.args and \
+                       y.value.func.value.id not in params and all(k.arg in ('key', 'reverse') for k in y.value.keywords):
+                        nm = y.value.func.value.id
+                        new = ast.Assign(targets=[ast.Name(id=nm, ctx=ast.Store())],
+                                         value=ast.Call(func=ast.Name(id='sorted', ctx=ast.Load()),
+                                                        args=[ast.Name(id=nm, ctx=ast.Load())], keywords=y.value.keywords))
+                        ast.copy_location(new, y)
+                        ast.fix_missing_locations(new)
+                        val[i_] = new
+                    elif isinstance(y, ast.AST):
+                        rec(y)
+            elif isinstance(val, ast.AST):
+                rec(val)
+    rec(node)
+
+
 def _chain_attr_alias(node):
     """`self.X = x = <fresh array / list / dict>` (x bound nowhere else): x is another name of the object kept in
     self.X - every use of x, its in-place updates included, is written as self.X"""
@@ -1092,6 +1118,7 @@ def flatten(ctx, func, depth=3):
         doc, body = body[:1], body[1:]
     node.body = doc + fl.block(body, [func.qual])
     _scalarise_tables(node)
+    _sort_as_sorted(node)
     _chain_attr_alias(node)
     _inplace_attr_alias(node)
     _scalarise_objects(ctx, node, fl.counter)
